@@ -85,12 +85,14 @@ def batch_strategy(draw, tier, shard=0, nshards=1):
     kind = draw(st.sampled_from(kinds))
     norb, nelec = draw(st.sampled_from(gens.shapes_for(kind, "quick")[:2]))
     params = draw(gens.trial_params(kind, norb, nelec))
-    nw = draw(st.sampled_from([1, 2, 3, 4, 6]))
+    nw = draw(st.sampled_from([4, 6, 6, 4, 2, 3, 1]))
     restricted = kind in gens.RESTRICTED_ONLY or (nelec[0] == nelec[1] and draw(st.booleans()))
     ws = [draw(gens.walker(norb, nelec, restricted=restricted)) for _ in range(nw)]
-    if nw > 1 and draw(st.integers(0, 4)) == 0:
+    if nw > 1 and draw(st.integers(0, 6)) == 0:
         ws[1] = ws[0]
-    n_batch = draw(st.sampled_from([d for d in range(1, nw + 1) if nw % d == 0]))
+    divs = [d for d in range(1, nw + 1) if nw % d == 0]
+    proper = [d for d in divs if 1 < d < nw]
+    n_batch = draw(st.sampled_from(proper)) if proper and draw(st.integers(0, 2)) else draw(st.sampled_from(divs))
     return {"kind": kind, "norb": norb, "nelec": list(nelec), "params": params, "walkers": ws, "restricted": restricted, "n_batch": n_batch}
 
 
@@ -104,7 +106,7 @@ def batch_body(ctx, case):
     ups = np.stack([np.asarray(w["up"], complex).reshape(norb, nelec[0]) for w in ws])
     dns = np.stack([np.asarray(w["dn"], complex).reshape(norb, nelec[1]) for w in ws])
     distinct = len({ups[i].tobytes() + dns[i].tobytes() for i in range(nw)})
-    ctx.case(case, nontrivial=distinct >= 2 and nb >= 1, classes=["kind:" + kind, f"n_walkers={nw}", f"n_batch={nb}", "container:" + ("array" if restricted else "list")] + (["n_batch>=2"] if nb >= 2 else []))
+    ctx.case(case, nontrivial=distinct >= 2 and nb >= 1, classes=["kind:" + kind, f"n_walkers={nw}", f"n_batch={nb}", "container:" + ("array" if restricted else "list")] + (["n_batch>=2"] if nb >= 2 else []) + (["proper-batching:" + ("array" if restricted else "list")] if 1 < nb < nw else []))
     trial1, _, _ = gens.build_trial(kind, norb, nelec, case["params"], n_batch=1)
     try:
         if restricted:
@@ -172,6 +174,6 @@ def rdm_body(ctx, case):
 
 SUBCHECKS = [
     SubCheck("overlap_vs_fock", body=overlap_body, strategy=overlap_strategy, examples={"quick": 110, "thorough": 1500}, shards={"quick": 12, "thorough": 12}),
-    SubCheck("batched_overlap", body=batch_body, strategy=batch_strategy, examples={"quick": 40, "thorough": 400}, shards={"quick": 3, "thorough": 9}),
+    SubCheck("batched_overlap", body=batch_body, strategy=batch_strategy, examples={"quick": 30, "thorough": 300}, shards={"quick": 9, "thorough": 9}),
     SubCheck("rdm1_vs_fock", body=rdm_body, strategy=rdm_strategy, examples={"quick": 60, "thorough": 800}, shards={"quick": 1, "thorough": 4}),
 ]
